@@ -65,6 +65,8 @@ def prepare(release=False):
     p.builder_failures = gen_coq.gen_builder(facts, "BuilderData", "rspirv/dr/build/*.rs via rs2coq")
     gen_coq.gen_panics(facts["panics"], "PanicSites", "rs2coq panic-site visitor over the files C04/C20 anchor")
     gen_coq.gen_panics(load_ref("panic_audit.json"), "RefPanicAudit", "ref/panic_audit.json", with_disposition=True)
+    gen_coq.gen_disas(facts["disas"], "DisasData", "rspirv/binary/{disassemble,autogen_disas_operand}.rs, dr/autogen_operand.rs via rs2coq")
+    gen_coq.gen_disas(load_ref("disas.json"), "RefDisas", "ref/disas.json")
     rp = load_ref("params.json")
     gen_coq.gen_parse({"decode": rp["decode"], "parse": {"arms": rp["arms"], "args": rp["args"]},
                        "assemble": {"operand_arms": []}, "variants": rp["variants"]}, {"storage_index_type": "u32"},
